@@ -522,9 +522,11 @@ def check(run, props):
     tid = 0
     if 'C16' in props:
         use = absfiles
-        if run.quick and len(use) > 2500:
+        cap = 2500 if run.quick else 20000        # TLC checks every file of the bounds; a seeded sample of them is rendered and read
+        run.extra['abstract_files_total'] = len(use)
+        if len(use) > cap:
             rng.shuffle(use)
-            use = use[:2500]
+            use = use[:cap]
         for f in use:
             tid += 1
             items.append((tid, 'abs', f))
